@@ -1,12 +1,12 @@
 SPECIFICATION Spec
 CONSTANTS
-    Feed <- FeedShort
+    Feed <- FeedTwo
     Calls <- CallsS
     PipeCap = 8
     MaxTicks = 1
     TimeoutOK = TRUE
-    Faults <- CloseOnly
-    OwnerAborts = TRUE
+    Faults <- NoFaults
+    OwnerAborts = FALSE
     Fixed = TRUE
     HangFix = TRUE
 INVARIANTS
